@@ -69,14 +69,19 @@ type HostConf struct {
 	StartTimeoutNs  int      `json:"start_timeout_ns,omitempty"`  // a start timeout shorter than the launch itself
 	GRPCBlock       bool     `json:"grpc_block,omitempty"`        // ClientConfig.GRPCDialOptions = [grpc.WithBlock()]
 	SharedSocketCfg bool     `json:"shared_socket_cfg,omitempty"` // every client of the cell gets the same *UnixSocketConfig
-	ScriptLine      string   `json:"script_line,omitempty"`       // plugin is a shell script printing this line instead of vplugin
-	Group           string   `json:"group,omitempty"`             // UnixSocketConfig.Group
-	Managed         bool     `json:"managed,omitempty"`           // ClientConfig.Managed (for CleanupClients)
-	AmbientInCmd    bool     `json:"ambient_in_cmd,omitempty"`    // the cell's ambient variables are put into Cmd.Env, not into the host's environment
-	MinPort         uint     `json:"min_port,omitempty"`
-	MaxPort         uint     `json:"max_port,omitempty"`
-	CertPEM         string   `json:"cert_pem,omitempty"` // static TLS: trust this server certificate
-	KeyPEM          string   `json:"key_pem,omitempty"`
+	// the application had set Cmd.Stdin before handing the command to go-plugin: "idle-pipe" = the read end of an
+	// io.Pipe that stays open and silent (os/exec copies such a reader through a goroutine that cmd.Wait waits for)
+	PresetStdin  string `json:"preset_stdin,omitempty"`
+	SharedConfig bool   `json:"shared_config,omitempty"`  // every client of the cell is built from the same *ClientConfig (only Cmd swapped)
+	CookieValue  string `json:"cookie_value,omitempty"`   // HandshakeConfig.MagicCookieValue of the host (default: the usual one)
+	ScriptLine   string `json:"script_line,omitempty"`    // plugin is a shell script printing this line instead of vplugin
+	Group        string `json:"group,omitempty"`          // UnixSocketConfig.Group
+	Managed      bool   `json:"managed,omitempty"`        // ClientConfig.Managed (for CleanupClients)
+	AmbientInCmd bool   `json:"ambient_in_cmd,omitempty"` // the cell's ambient variables are put into Cmd.Env, not into the host's environment
+	MinPort      uint   `json:"min_port,omitempty"`
+	MaxPort      uint   `json:"max_port,omitempty"`
+	CertPEM      string `json:"cert_pem,omitempty"` // static TLS: trust this server certificate
+	KeyPEM       string `json:"key_pem,omitempty"`
 	// a certificate that the machine's trust store lists (SSL_CERT_FILE of the host process and of the plugins
 	// it launches) although it is neither side's AutoMTLS certificate; intruder class tls-systrusted presents it
 	SysTrustCert string `json:"sys_trust_cert,omitempty"`
@@ -289,6 +294,8 @@ func RunCell(c *Cell) (res *Result) {
 	plog := &lockedBuf{}
 
 	var lastCmd *exec.Cmd
+	var idlePipes []*io.PipeWriter
+	defer func() { _ = idlePipes }()
 	mkCmd := func() *exec.Cmd {
 		var cmd *exec.Cmd
 		defer func() { lastCmd = cmd }()
@@ -304,11 +311,20 @@ func RunCell(c *Cell) (res *Result) {
 				cmd.Env = append(cmd.Env, "SSL_CERT_FILE="+f) // the plugin shares the machine's trust store
 			}
 		}
+		if c.Host.PresetStdin == "idle-pipe" {
+			pr, pw := io.Pipe()
+			idlePipes = append(idlePipes, pw) // kept open, never written to
+			cmd.Stdin = pr
+		}
 		return cmd
+	}
+	hostCookie := cookieVal
+	if c.Host.CookieValue != "" {
+		hostCookie = c.Host.CookieValue
 	}
 	mkConfig := func() *plugin.ClientConfig {
 		cfg := &plugin.ClientConfig{
-			HandshakeConfig:     plugin.HandshakeConfig{MagicCookieKey: cookieKey, MagicCookieValue: cookieVal},
+			HandshakeConfig:     plugin.HandshakeConfig{MagicCookieKey: cookieKey, MagicCookieValue: hostCookie},
 			StartTimeout:        10 * time.Second,
 			Logger:              hclog.NewNullLogger(),
 			SyncStdout:          so,
